@@ -220,6 +220,17 @@ FRAGS = [
                 (r"self\.poll\(\);", "true")],
          params=[("remaining", "bool")], bind={"remaining": "remaining"},
          doc="Runtime::block_on_at: true = the loop blocks in the driver (poll()), false = it only polls with a zero timeout"),
+    # ---- C13 / C14: layout of the multishot RECVMSG result buffer (sizes of the two libc structs are parameters)
+    Frag("mshot_fixed_len", "compio-driver/src/sys/op/managed/iour.rs",
+         expr=r"^\s*let fixed_len = (size_of::<io_uring_recvmsg_out>\(\) \+ NLEN \+ clen);",
+         subst=[(r"size_of::<io_uring_recvmsg_out>\(\)", "hdr"), (r"\bNLEN\b", "nlen")],
+         params=[("hdr", "nat"), ("nlen", "nat"), ("clen", "nat")], bind={"hdr": "hdr", "nlen": "nlen", "clen": "clen"}, num="nat",
+         doc="RecvMsgMultiResultImpl::new: bytes in front of the payload (header + name area + control area)"),
+    Frag("mshot_data_offset", "compio-driver/src/sys/op/managed/iour.rs",
+         expr=r"^\s*let offset = (size_of::<io_uring_recvmsg_out>\(\) \+ NLEN \+ self\.clen);",
+         subst=[(r"size_of::<io_uring_recvmsg_out>\(\)", "hdr"), (r"\bNLEN\b", "nlen")],
+         params=[("hdr", "nat"), ("nlen", "nat"), ("clen", "nat")], bind={"hdr": "hdr", "nlen": "nlen", "self.clen": "clen"}, num="nat",
+         doc="RecvMsgMultiResultImpl::data: offset of the payload in the buffer"),
 ]
 
 # extra fragments are appended by the property builders below this line
